@@ -102,11 +102,11 @@ class AccountMonitor:
             else:
                 self.pred = ('reject' if need > have else 'accept', need, have)
         else:
-            rej, need, have = self.m.would_reject(s, attrs['side'], attrs['type'], qty, price)
+            rej, need, have, where = self.m.would_reject(s, attrs['side'], attrs['type'], qty, price)
             self.pred = ('reject' if rej else 'accept', need, have)
-            if need == have:
+            if where == 'exact':
                 c.count('c04_exact_boundary_submissions')
-            elif abs(need - have) <= 1e-9 * max(1.0, abs(need)):
+            elif where == 'near':
                 # closer than any bookkeeping error could be and not exactly equal: no verdict
                 self.pred = ('boundary', need, have)
                 c.count('c04_near_boundary_submissions')
